@@ -490,6 +490,7 @@ CLAUSES = {
     "kernel_vs_python": "compiled kernels and pure-Python reference paths return the same arrays",
     "pointwise_real": "evaluate_at_points (real coefficients) equals sum c_lm Y_lm(theta, phi), i.e. agrees with synthesis",
     "pointwise_cplx": "evaluate_at_points (complex coefficients) equals sum c_lm Y_lm(theta, phi), i.e. agrees with synthesis",
+    "pointwise_near_pole": "evaluate_at_points within a few 1e-6 rad of a pole equals sum c_lm Y_lm(theta, phi) to 1e-7 relative",
     "pointwise_pole": "evaluate_at_points at the poles (theta = 0, pi; cos(theta) = +-1 exactly) equals sum c_lm Y_lm(theta, phi)",
     "plm_compiled": "compiled AssocLegendre.evaluate_batch returns the orthonormal Pbar_l^m(x) in (m,l) order",
     "plm_python": "assoc_legendre.AssocLegendre.evaluate_batch returns the orthonormal Pbar_l^m(x) in (m,l) order",
@@ -534,6 +535,10 @@ def _native_one_L(nat, seed, L, reps, L_ref, L_py, L_single):
         vd = s.synthesis(d)
         nat.check("linear_synthesis", s.synthesis(al * c + be * d), al * v + be * vd, inp)
         nat.check("linear_analysis", s.analysis(al * v + be * vd), al * a + be * s.analysis(vd), inp)
+        # homogeneity at extreme magnitudes (the transform has no preferred unit): analysis(k f) == k analysis(f), compared relative to k
+        for kf in (1e-18, 1e12):
+            nat.check("linear_analysis", s.analysis(kf * v) / kf, a, dict(inp, scaled_by=kf))
+            nat.check("linear_synthesis", s.synthesis(kf * c) / kf, v, dict(inp, scaled_by=kf))
         nat.check("expand", s.complete_coefficients(a), s.analysis(v.astype(complex)) if L else a, inp)
         nat.check("expand", s.complete_coefficients(c), full_from_real(L, c), inp)
         if L >= 1:
@@ -561,6 +566,11 @@ def _native_one_L(nat, seed, L, reps, L_ref, L_py, L_single):
             nat.check("roundtrip_real_sa", s.synthesis(s.analysis(fr)), fr, inp)
             pts_t = np.concatenate([rng.uniform(0.05, np.pi - 0.05, 4), [th[1 % s.ntheta, 0], th[-1, 0]]])
             pts_p = np.concatenate([rng.uniform(0, 2 * np.pi, 4), [ph[0, 1 % s.nphi], ph[0, -1]]])
+            # two directions very close to (but not on) the poles: 1 - cos^2(theta) loses about six digits there, so the tolerance is 1e-7 relative instead of 1e-10
+            near_t, near_p = np.array([3e-6, np.pi - 4e-6]), np.array([0.7, 2.9])
+            wn = ref_at_points(L, cfull, near_t, near_p).real
+            gn = np.array([s.evaluate_at_points(c, t, p) for t, p in zip(near_t, near_p)])
+            nat.check("pointwise_near_pole", gn, wn, dict(inp, theta=near_t.tolist(), phi=near_p.tolist()), scale=1e3 * max(1.0, float(np.max(np.abs(wn)))))
             want = ref_at_points(L, cfull, pts_t, pts_p).real
             got = np.array([s.evaluate_at_points(c, t, p) for t, p in zip(pts_t, pts_p)])
             nat.check("pointwise_real", got, want, dict(inp, theta=pts_t.tolist(), phi=pts_p.tolist()))
@@ -1278,7 +1288,7 @@ def build(ctx):
         "exact_vs_reference": ["ref_real_analysis", "ref_real_synthesis", "ref_cplx_analysis", "ref_cplx_synthesis", "single_cplx", "single_real", "plm_compiled", "plm_python"],
         "round_trips": ["roundtrip_real_as", "roundtrip_real_sa", "roundtrip_cplx_as", "roundtrip_cplx_sa"],
         "kernels_vs_pure_python": ["py_real_analysis", "py_cplx_analysis", "py_real_synthesis", "py_cplx_synthesis", "kernel_vs_python"],
-        "pointwise_evaluation": ["pointwise_real", "pointwise_cplx"],
+        "pointwise_evaluation": ["pointwise_real", "pointwise_cplx", "pointwise_near_pole"],
         "pointwise_evaluation_at_the_poles": ["pointwise_pole"],
         "real_to_full_expansion": ["expand"],
         "linearity": ["linear_analysis", "linear_synthesis"],
